@@ -10,7 +10,7 @@ import fitcase
 
 PROP = 'C17'
 MODEL_OPS = 'PlotM.curve_list (count, draw order), PlotM.curve_val (distance scaling and reddening of the interpolated SED flux)'
-RULE = ('cube packages with 3-8 wavelengths, 2-6 models, single- and multi-aperture, fitted with Fitter at 2-4 of the tabulated wavelengths (apertures with repeats), '
+RULE = ('cube packages with 3-8 wavelengths, 2-6 models, single- and multi-aperture, fitted with Fitter at 2-4 of the tabulated wavelengths listed in any order (apertures with repeats), '
         '1-5 fits selected, display mode in {interp, largest, largest+smallest, all}, results passed as object or as file, memmap on/off; plot(output_dir=None) and the '
         'segments of the returned LineCollection compared with the stored predictions and with the model. non-trivial = multi-aperture package with >= 2 selected fits.')
 EXHAUSTIVE = {'quick': False, 'thorough': False}
@@ -42,7 +42,9 @@ def generate(tier, seed):
             sd['flux'] = rows
             sd['err'] = [[x * 0.1 for x in r] for r in rows]
         nb = rng.randint(2, min(4, len(wav)))
-        fidx = sorted(rng.sample(range(len(wav)), nb))
+        fidx = rng.sample(range(len(wav)), nb)      # the filter list follows the data file's columns: any order
+        if rng.random() < 0.4:
+            fidx.sort()
         thetas = [rng.choice([2.0, 3.5, 5.0]) for _ in fidx]
         c = dict(pkg=pkg, fidx=fidx, theta=thetas, mode=rng.choice(MODES), nsel=rng.randint(1, 5), form=rng.choice(['object', 'file']), memmap=rng.random() < 0.5,
                  src=fitcase.gen_source(rng, nb, flags=[1] * nb), ext=fitcase.gen_ext(rng, [wav[i] for i in fidx]), av_range=[0.0, 20.0])
@@ -133,7 +135,7 @@ def model_requests(case, im):
 
 def judge(case, im, mo):
     pkg = case['pkg']
-    tags = ['mode=' + case['mode'], 'nap=%s' % (1 if pkg['aps'] is None else len(pkg['aps'])), 'form=' + case['form'], 'nsel=%d' % case['nsel']]
+    tags = ['filters-sorted=%s' % (case['fidx'] == sorted(case['fidx'])), 'mode=' + case['mode'], 'nap=%s' % (1 if pkg['aps'] is None else len(pkg['aps'])), 'form=' + case['form'], 'nsel=%d' % case['nsel']]
     if 'exc' in im:
         if im['exc'] == 'too_small':
             return dict(disagree=[], fail=[], nontrivial=False, tags=tags + ['refused'])
